@@ -16,6 +16,7 @@ import Rc.Drv.C06
 import Rc.Drv.C05
 import Rc.Drv.C14
 import Rc.Drv.C08
+import Rc.Drv.C16
 import Rc.Drv.C18
 
 def dispatch (prop : String) : Option (List String → String) :=
@@ -33,6 +34,7 @@ def dispatch (prop : String) : Option (List String → String) :=
   | "C05" => some Rc.Drv.C05.handle
   | "C14" => some Rc.Drv.C14.handle
   | "C08" => some Rc.Drv.C08.handle
+  | "C16" => some Rc.Drv.C16.handle
   | "C18" => some Rc.Drv.C18.handle
   | _ => none
 
